@@ -20,7 +20,7 @@ RULE = ("(A) pure helpers eval_on_knots / bspline_derivative / get_greville_poin
         "point.  (C) bspline variables under MultipleShooting / DirectCollocation: samples on control, refined integrator "
         "and root grids must lie in the spline space of the declared order on the control-grid knots and agree across "
         "grids.  (D) on convex chain problems SplineMethod and MultipleShooting (rk) are solved with ipopt and must agree "
-        "on the optimal cost and trajectories.  (E) SplineMethod with grid='inf' constraints on chain states, bspline variables and der() of them (one- and two-sided, with constant offsets): the NLP is linear, so linear programmes over all its rows give the extreme values the refined sample of the constrained expression can take; a value beyond the declared bound witnesses rows that do not impose the constraint.  (F) chains perturbed by a constant term, a parametric term, a zero derivative, a scaled link, a cross term or a shared control: SplineMethod must either reject the model or the declared right-hand side must equal the analytic derivative of the sampled spline at every refined point.  non-trivial = at least one spline evaluation compared with non-zero "
+        "on the optimal cost and trajectories.  (E) SplineMethod with grid='inf' constraints on chain states, bspline variables and der() of them (one- and two-sided, with constant offsets): the NLP is linear, so linear programmes over all its rows give the extreme values the refined sample of the constrained expression can take; a value beyond the declared bound witnesses rows that do not impose the constraint.  (F) chains perturbed by a constant term, a parametric term, a zero derivative, a scaled link, a cross term or a shared control: SplineMethod must either reject the model or the declared right-hand side must equal the analytic derivative of the sampled spline at every refined point.  (G) DirectCollocation with bspline parameters and variables inside the right-hand side next to ordinary and per-interval parameters and variables, declared in random order with distinct weights: the equality rows of the NLP must be the collocation defects (numpy Lagrange weights) with the spline evaluated at the collocation times and every other quantity at its own value.  non-trivial = at least one spline evaluation compared with non-zero "
         "coefficients; distinct = (part, degree/order, N, knot kind, refine, chain layout).")
 ASSUMPTIONS = ["scipy.interpolate.BSpline on clamped knot vectors is the specification of a B-spline",
                "networkx (optional dependency of SplineMethod) is taken from the offline wheelhouse"]
@@ -111,6 +111,23 @@ def gen_cases(rng, tier):
         cases.append({"part": "F", "kind": F_KINDS[i % len(F_KINDS)], "N": rng.choice([1, 2, 3, 4, 5]),
                       "len": rng.choice([1, 2, 3]), "where": rng.randrange(3), "c": rng.choice([1.0, -0.7, 2.0, 0.35]),
                       "pval": ocpgen.rnd(rng, 0.3, 2), "refine": rng.choice([2, 3, 5]),
+                      "grid": ocpgen.gen_grid(rng, ["uniform", "geometric", "function"], 3),
+                      "t0": ocpgen.rnd(rng, -1, 1, 2), "T": ocpgen.rnd(rng, 0.4, 3, 2), "seed": rng.getrandbits(32)})
+    ng = 40 if tier == "quick" else 600
+    for i in range(ng):
+        N = rng.choice([1, 2, 3, 4])
+        kinds = ["bpar", "bvar", "var", "par", "parc", "varc"]
+        use = {k: rng.random() < 0.5 for k in kinds}
+        if not (use["bpar"] or use["bvar"]):
+            use[rng.choice(["bpar", "bvar"])] = True
+        order = list(kinds)
+        rng.shuffle(order)
+        bpo, bvo = rng.choice([0, 1, 2, 3]), rng.choice([0, 1, 2, 3])
+        cases.append({"part": "G", "N": N, "M": rng.choice([1, 2]), "degree": rng.choice([1, 2, 3]),
+                      "scheme": rng.choice(["radau", "legendre"]), "use": use, "order": order, "bp_order": bpo, "bv_order": bvo,
+                      "bp_coef": [ocpgen.rnd(rng, -2, 2) for _ in range(N + bpo)], "p_val": ocpgen.rnd(rng, -2, 2),
+                      "pc_val": [ocpgen.rnd(rng, -2, 2) for _ in range(N)],
+                      "weights": {k: w_ for k, w_ in zip(["x", "u"] + kinds, [-0.7, 1.0, 10.0, 100.0, 3.0, 0.3, 30.0, 0.03])},
                       "grid": ocpgen.gen_grid(rng, ["uniform", "geometric", "function"], 3),
                       "t0": ocpgen.rnd(rng, -1, 1, 2), "T": ocpgen.rnd(rng, 0.4, 3, 2), "seed": rng.getrandbits(32)})
     nd = 10 if tier == "quick" else 120
@@ -826,5 +843,138 @@ def run_F(case):
     return res
 
 
+# ------------------------------------------------------------------------------------------------ part G
+def run_G(case):
+    """B-spline parameters / variables inside the right-hand side under DirectCollocation, mixed with ordinary and
+    per-interval parameters and variables: every collocation row must be the collocation defect with the spline
+    evaluated (Cox-de Boor on the gist coefficients) at the collocation time and every other quantity at its own value."""
+    import casadi as ca
+    import rockit
+    from ..gen import build
+    from ..obs import nlp
+    from ..ref import grids as G, colloc
+    N, M, d, sch = case["N"], case["M"], case["degree"], case["scheme"]
+    use = case["use"]
+    res = {"sig": "G|DC-%s%d|N%dM%d|%s|%s" % (sch[0], d, N, M, C.grid_tag(case["grid"]), "+".join(sorted(k for k in use if use[k]))),
+           "evals": 0, "violations": [], "counters": {"collocation_rows": 0, "spline_points": 0}}
+    wt = case["weights"]
+    rng = np.random.default_rng(case["seed"])
+    try:
+        ocp = rockit.Ocp(t0=case["t0"], T=case["T"])
+        x = ocp.state()
+        u = ocp.control()
+        terms = {}
+        syms = {}
+        # declaration order is part of the case: the ODE argument order must not depend on it
+        for kind in case["order"]:
+            if not use[kind]:
+                continue
+            if kind == "bpar":
+                sy = ocp.parameter(grid="bspline", order=case["bp_order"])
+                ocp.set_value(sy, ca.DM(np.array(case["bp_coef"]).reshape(1, -1)))
+            elif kind == "bvar":
+                sy = ocp.variable(grid="bspline", order=case["bv_order"])
+            elif kind == "var":
+                sy = ocp.variable()
+            elif kind == "par":
+                sy = ocp.parameter()
+                ocp.set_value(sy, case["p_val"])
+            elif kind == "parc":
+                sy = ocp.parameter(grid="control")
+                ocp.set_value(sy, ca.DM(np.array(case["pc_val"]).reshape(1, -1)))
+            elif kind == "varc":
+                sy = ocp.variable(grid="control")
+            syms[kind] = sy
+        rhs = wt["x"] * x + wt["u"] * u
+        for kind, sy in syms.items():
+            rhs = rhs + wt[kind] * sy
+        ocp.set_der(x, rhs)
+        ocp.add_objective(ocp.sum(u ** 2 + sum(ca.sumsqr(sy) for k_, sy in syms.items() if k_ in ("bvar", "var", "varc")),
+                                  include_last=False) + ocp.at_tf(x) ** 2)
+        ocp.method(rockit.DirectCollocation(N=N, M=M, degree=d, scheme=sch, grid=build.make_grid(case["grid"])))
+        ocp.solver("ipopt", {"ipopt.print_level": 0, "print_time": False})
+        view = C.call("transcribe", nlp.NlpView, ocp)
+        outs = [C.call("sample", ocp.sample, x, grid="integrator")[1], C.call("sample", ocp.sample, x, grid="integrator_roots")[1],
+                C.call("sample", ocp.sample, u, grid="control")[1], C.call("sample", ocp.sample, ocp.t, grid="control")[1]]
+        names = ["xi", "xr", "uc", "tc"]
+        for kind, sy in syms.items():
+            if kind == "bvar":
+                # no 'gist' grid under DirectCollocation: the coefficients are recovered from refined samples
+                # (part C establishes that those lie in the spline space)
+                outs.append(C.call("sample(refine)", ocp.sample, sy, grid="integrator", refine=case["bv_order"] + 2)[1])
+            elif kind == "bpar":
+                outs.append(ca.DM(np.array(case["bp_coef"]).reshape(1, -1)))
+            elif kind in ("parc", "varc"):
+                outs.append(C.call("sample", ocp.sample, sy, grid="control")[1])
+            else:
+                outs.append(C.call("value", ocp.value, sy))
+            names.append(kind)
+        F = ca.Function("rb", [view.x, view.p], [ca.MX(o) for o in outs])
+    except C.RockitRaised as e:
+        res["violations"].append(C.exc_violation(ID, e, "G"))
+        return res
+    tau = colloc.points(d, sch)
+    Cm, Dm, _ = colloc.coeffs(d, sch)
+    nrm = np.array(G.normalized(case["grid"], N))
+    for it in range(3):
+        w = view.random_point(rng, 1.0)
+        vals = {n: np.array(v, dtype=float) for n, v in zip(names, F(w, view.p0))}
+        xi, xr, uc, tc = vals["xi"].reshape(-1), vals["xr"].reshape(-1), vals["uc"].reshape(-1), vals["tc"].reshape(-1)
+        if "bvar" in syms:
+            R_ = case["bv_order"] + 2
+            tt = np.concatenate([np.linspace(tc[k], tc[k + 1], M * R_ + 1)[:-1] for k in range(N)] + [tc[-1:]])
+            Bm = design(list(tc), case["bv_order"], tt)
+            sol_, *_ = np.linalg.lstsq(Bm.T, vals["bvar"].reshape(-1), rcond=None)
+            if np.max(np.abs(Bm.T @ sol_ - vals["bvar"].reshape(-1))) > 1e-8 * (1 + np.max(np.abs(sol_))):
+                res["status"] = "inconclusive"
+                res["note"] = "bspline variable samples are not in the spline space (subject of part C)"
+                return res
+            vals["bvar"] = sol_.reshape(1, -1)
+        exp = []
+        for k in range(N):
+            h = (tc[k + 1] - tc[k]) / M
+            for i in range(M):
+                idx = k * M + i
+                nodes = [xi[idx]] + [xr[idx * d + j] for j in range(d)]
+                for j in range(d):
+                    t_j = tc[k] + (i + tau[j]) * h
+                    f = wt["x"] * nodes[j + 1] + wt["u"] * uc[k]
+                    for kind in syms:
+                        if kind in ("bpar", "bvar"):
+                            cg = vals[kind].reshape(1, -1)
+                            dg = cg.shape[1] - N
+                            if dg == 0:
+                                # piecewise constant: a collocation time on a knot belongs to the interval it closes
+                                f += wt[kind] * float(cg[0][k])
+                            else:
+                                f += wt[kind] * float(spline_eval(list(tc), dg, cg, np.array([t_j]))[0][0])
+                            res["counters"]["spline_points"] += 1
+                        elif kind in ("parc", "varc"):
+                            f += wt[kind] * float(vals[kind].reshape(-1)[k])
+                        else:
+                            f += wt[kind] * float(vals[kind].reshape(-1)[0])
+                    pidot = sum(Cm[r][j] * nodes[r] for r in range(d + 1)) / h
+                    exp.append(("eq", abs(pidot - f)))
+                x_next = xi[idx + 1]
+                exp.append(("eq", abs(sum(Dm[r] * nodes[r] for r in range(d + 1)) - x_next)))
+        _, atoms = view.atoms(w)
+        obs = [(a[0], a[1]) for a in atoms if a[0] == "eq"]
+        sc = 1 + max([v for _, v in exp] + [0.0])
+        un_e, un_o = nlp.match_multiset(exp, obs, scale=sc, rtol=1e-8)
+        res["evals"] += 1
+        res["counters"]["collocation_rows"] += len(exp)
+        if un_e or un_o:
+            res["violations"].append({
+                "kind": "collocation-rows", "mech": "C17|G|collocation-rows-with-bspline-signals|" + "+".join(sorted(syms)),
+                "detail": "declaration order %s, weights %s: %d of %d reference residuals unmatched (e.g. %s), %d NLP "
+                          "equality residuals unmatched (e.g. %s)" % (
+                              [k for k in case["order"] if use[k]], {k: wt[k] for k in syms}, len(un_e), len(exp),
+                              C.short([exp[i][1] for i in un_e][:3]), len(un_o), C.short([obs[i][1] for i in un_o][:3]))})
+            return res
+    res["nontrivial"] = res["counters"]["spline_points"] > 0
+    res["sample"] = {"N": N, "M": M, "degree": d, "scheme": sch, "kinds": sorted(syms), "order": case["order"]}
+    return res
+
+
 def run_case(case):
-    return {"A": run_A, "B": run_B, "C": run_C, "D": run_D, "E": run_E, "F": run_F}[case["part"]](case)
+    return {"A": run_A, "B": run_B, "C": run_C, "D": run_D, "E": run_E, "F": run_F, "G": run_G}[case["part"]](case)
